@@ -20,6 +20,9 @@ class Boom(Exception):
     pass
 
 
+CHECK = [None]
+
+
 def observe():
     own = [1 if optree._C.is_dict_insertion_ordered(NSN[n], inherit_global_namespace=False) else 0 for n in (0, 1, 2)]
     eff = []
@@ -66,6 +69,15 @@ def oracle(res, case):
         ch = list(e.flatten_func(d)[0])
         if ch != want:
             res.fail('register_pytree_node.get(dict) does not reflect the current mode', case, f'mode={on} children={ch}')
+        listing = optree.register_pytree_node.get(namespace=ns if n else world.GLOBAL)
+        for typ, probe, w in ((dict, d, want), (defaultdict, dd, want)):
+            ch2 = list(listing[typ].flatten_func(probe)[0])
+            if ch2 != w:
+                res.fail('register_pytree_node.get(namespace=N) listing does not reflect the current mode', case,
+                         f'ns={ns!r} type={typ.__name__} mode={on} children={ch2}')
+        e3 = optree.register_pytree_node.get(defaultdict, namespace=ns if n else world.GLOBAL)
+        if list(e3.flatten_func(dd)[0]) != want:
+            res.fail('register_pytree_node.get(defaultdict) does not reflect the current mode', case)
 
 
 def execute(prog, obs, res, case):
@@ -75,14 +87,28 @@ def execute(prog, obs, res, case):
             oracle(res, case)
         return
     _, mode, n, raises, *body = prog
-    with optree.dict_insertion_ordered(bool(mode), namespace=NSN[n] if n else world.GLOBAL):
-        for q in body:
-            execute(q, obs, res, case)
-        if raises:
-            raise Boom()
+    before = observe()[:3]
+    try:
+        with optree.dict_insertion_ordered(bool(mode), namespace=NSN[n] if n else world.GLOBAL):
+            inside = observe()[:3]
+            if CHECK[0] is not None:
+                want_in = list(before)
+                want_in[n] = mode
+                if list(inside) != want_in:
+                    CHECK[0].fail('entering a with-block changed another namespace or did not set its own', case, f'{before}->{inside}')
+            for q in body:
+                execute(q, obs, res, case)
+            if raises:
+                raise Boom()
+    finally:
+        after = observe()[:3]
+        if CHECK[0] is not None and after != before:
+            CHECK[0].fail('when a with-block exited the mode of some namespace is not what it was on entry', case,
+                          f'block=({mode},{n},raises={raises}) before={before} after={after}')
 
 
 def run_program(progs, res, case, with_oracle):
+    CHECK[0] = res
     for n in (0, 1, 2):
         optree._C.set_dict_insertion_ordered(False, NSN[n])
     obs = []
